@@ -283,6 +283,8 @@ def c04():
 def c06():
     obs = pfc_family('C06', 'pfc', 'h_pfc_saveload', quick_bs=(2, 3), quick_shapes=[[1, 2, 2], [2, 2, 2]], sym_n2=False, timeout_q=600)
     obs += pfc_family('C06', 'pfc.generic', 'h_pfc_saveload', quick_bs=(2,), quick_shapes=[[2, 1, 2]], sym_n2=False, timeout_q=600, extra_defs={'GENERIC_LOADER': None}, thorough_extra=False)
+    obs.append(pfc('c06.pfc.twoimages.n2.len22.bs2', 'C06', 'h_pfc_two_images', 2, 2, 2, defs={'LENV': '{2,2}', 'VS_BOUND': 2 * (32 + 2 * 4 + 9 + 16)}, timeout=900))
+    obs.append(pfc('c06.pfc.twoimages.n3.len122.bs2', 'C06', 'h_pfc_two_images', 3, 2, 2, defs={'LENV': '{1,2,2}', 'VS_BOUND': 2 * (32 + 3 * 4 + 9 + 16)}, tier=T, timeout=3600))
     obs += dac_obs('C06', what=('saveload', 'bvls'))
     obs += [o for o in bitseq_obs('C06', parts=()) ]
     obs += logseq_obs('C06')
@@ -293,7 +295,7 @@ def c06():
 def c07():
     obs = []
     # buffer growth: MEMALLOC hook 2..4 so that 2*len crosses the reservation exactly / by one
-    for sh, bs, ma, tier in [([1, 1], 2, 2, Q), ([3], 2, 2, T), ([2], 2, 1, Q), ([1, 1, 1], 3, 2, T), ([2, 2], 2, 2, T), ([2, 2, 2], 2, 2, T), ([1, 2, 2], 2, 3, T), ([2, 1, 2], 2, 4, T), ([2, 2, 2], 3, 2, T),
+    for sh, bs, ma, tier in [([1, 1], 2, 2, T), ([3], 2, 2, T), ([2], 2, 1, Q), ([1, 1, 1], 3, 2, T), ([2, 2], 2, 2, T), ([2, 2, 2], 2, 2, T), ([1, 2, 2], 2, 3, T), ([2, 1, 2], 2, 4, T), ([2, 2, 2], 3, 2, T),
                              ([2, 2, 2, 2], 2, 2, T), ([1, 1, 1], 2, 2, T), ([2, 2, 1], 2, 3, T), ([3, 3, 3], 2, 2, T), ([1, 2, 2], 3, 2, T)]:
         n = len(sh); l = max(sh) if max(sh) > 2 else 2
         # tight byte cap: the reservation after the growth steps this shape can need (checked by the cap assertion)
@@ -302,7 +304,9 @@ def c07():
         while cap < need: cap *= 2
         obs.append(pfc('c07.pfc.grow.len%s.bs%d.m%d' % (''.join(map(str, sh)), bs, ma), 'C07', 'h_pfc_c01', n, l, bs, memalloc=ma, maxbytes=max(cap, sum(x + 1 for x in sh)), defs={'LENV': lenv(sh)}, tier=tier,
                        timeout=900 if tier == Q else 3600))
-    obs += pfc_family('C07', 'pfc.hist', 'h_pfc_c07hist', quick_bs=(2,), quick_shapes=[[1, 2, 2], [2, 2, 2]], sym_n2=False, timeout_q=900, thorough_extra=False, extra_defs={'HIST': 2})
+    obs += pfc_family('C07', 'pfc.hist1', 'h_pfc_c07hist', quick_bs=(2,), quick_shapes=[[1, 2, 2], [2, 2, 2]], sym_n2=False, timeout_q=900, thorough_extra=False, extra_defs={'HIST': 1})
+    for sh in ([1, 2, 2], [2, 2, 2]):
+        obs.append(pfc('c07.pfc.hist2.n3.len%s.bs2' % ''.join(map(str, sh)), 'C07', 'h_pfc_c07hist', 3, 2, 2, defs={'LENV': lenv(sh), 'HIST': 2}, tier=T, timeout=3600))
     obs.append(unit('c07.reallocate', 'C07', 'h_reallocate', [], defs={'RLEN': 4}, cdefs={'IR2C_MAXBYTES': 16, 'IR2C_MAXELEMS': 8}, unwind=18, bounds='Reallocate(uchar**/int**) on 4 symbolic entries'))
     obs += [o for o in dac_obs('C07', what=('access',)) if 'fulllist' not in o.name]
     obs += iter_obs('C07', which=('duplicates',))
